@@ -352,10 +352,24 @@ class FnTranslator:
             return self.loop_body_signature(n, body[0])
         if sl and body:
             stmts = [c for c in body[0].get('inner', []) or []]
-            idx = [i for i, c in enumerate(stmts) if c.get('kind') == sl]
-            if not idx:
-                raise Unsupported('slice: no top-level %s in %s' % (sl, self.key))
-            self.slice_stmts = stmts[idx[0]:]
+
+            def locate(sel):
+                """<Kind> or <Kind>#n: the n-th (0-based) top-level statement of that AST kind"""
+                kind, _, nth = sel.partition('#')
+                hits = [i for i, c in enumerate(stmts) if c.get('kind') == kind]
+                n_ = int(nth) if nth else 0
+                if n_ >= len(hits):
+                    raise Unsupported('slice: no top-level %s in %s' % (sel, self.key))
+                return hits[n_]
+            if '..' in sl:
+                a_, b_ = sl.split('..')
+                lo_, hi_ = locate(a_), locate(b_)
+                self.slice_stmts = stmts[lo_:hi_ + 1]
+                self.slice_is_range = True
+            else:
+                lo_ = locate(sl)
+                self.slice_stmts = stmts[lo_:]
+            idx = [lo_]
             inside = set()
             for st in self.slice_stmts:
                 for x in astload.walk(st):
@@ -383,6 +397,8 @@ class FnTranslator:
                     continue
                 self.local_names[rid] = (d['name'], t)
                 ps.append((d['name'], t, False))
+            if getattr(self, 'slice_is_range', False):
+                self.ret_t = ('void',)
             return ps
         if self.is_method:
             ps.append(('self', ('ptr', ('rec', self.owner)), True))
@@ -496,7 +512,7 @@ class FnTranslator:
         return None
 
     def _ret_type_string(self, n):
-        qt = n['type'].get('desugaredQualType', n['type']['qualType'])
+        qt = n['type'].get('desugaredQualType', n['type']['qualType']).replace('(anonymous namespace)', 'ANON_NS_').replace('(anonymous)', 'ANON_NS_')
         # "RET (ARGS) const noexcept": cut at the top-level '(' that opens the parameter list
         depth = 0
         for i, ch in enumerate(qt):
